@@ -289,7 +289,7 @@ def select_cells(cells, tier, seed):
     if tier == "thorough":
         out = []
         for c in cells:
-            reps = 4 if c["size"] in ("one", "two", "few") else 3
+            reps = 3
             if c["size"] == "huge":
                 reps = 2
             out += [c] * reps
